@@ -419,7 +419,8 @@ def run_case(case: dict[str, Any], stats: Stats) -> list[Violation]:
         stats.state(kinds, sorted(set(crash_kinds)), meta.get("negatives"), meta.get("shared"), pspec["entry"], pspec.get("rom") or pspec.get("mapping"), [op.get("mapping") for op in ops if op["op"] == "exec"])
     out: list[Violation] = []
     if r_after != r_alone:
-        out.append(Violation("probe_result_depends_on_history", "after_vs_alone", f"probe after the history differs from the probe alone: {explain_diff(r_after, r_alone)}", case, {"history_kinds": kinds}))
+        fields = ",".join(sorted(k for k in set(r_after) | set(r_alone) if r_after.get(k) != r_alone.get(k)))
+        out.append(Violation("probe_result_depends_on_history", "after_vs_alone:" + fields, f"probe after the history differs from the probe alone: {explain_diff(r_after, r_alone)}", case, {"history_kinds": kinds}))
     elif r_repeat != r_after:
         out.append(Violation("probe_not_repeatable", "repeat", f"probe repeated immediately differs from its first run: {explain_diff(r_repeat, r_after)}", case, {"history_kinds": kinds}))
     if case.get("fresh") and not out:
